@@ -93,3 +93,9 @@ CLAIMED["C18"] = dict(
 for _p in ["C13","C14","C15","C18"]:
     NA.pop(_p, None)
 NA["C17"] = "check not built yet in this session (work in progress)"
+
+CLAIMED["C17"] = dict(
+    technique="static analysis: dominance of file creation by removal, path ordering of index vs data writes, encoder/decoder column table agreement, open/close pairing",
+    decided="ONLY the structural clauses: every metric / index file creation follows a successful removal of the len-max+1 oldest files with their index files (bounded file count); on a new second the index entry is written and flushed before that second's lines and latestOpSec advances only after the lines were written; each column the decoder stores into a MetricItem field is fed by the encoder from that same field (11 columns); every file opened by reader / searcher is closed, returned or nil on every path.",
+    not_decided="the core of the property: read-back equality across rolls, the searcher's position cache, ordering / duplicates, and behaviour when a data or index file is cut at an arbitrary byte (crash points). These quantify over file contents and byte offsets that no static argument in reach bounds; reading found suspicious spots (the `v != cachedPos.metricFilename` test in getOffsetStartAndFileIdx, the index entry written to the old index file on a day roll, writeItemsAndFlush returning nil on a write error) which no sound static rule decides.")
+NA.pop("C17", None)
